@@ -7,7 +7,12 @@ stdout: last line = JSON list, one result per case.
 case kind "hist": {"kind": "hist", "runs": [run, ...]}
   run = {"mk": [x..], "rm": [x..],           job directories created (with success marker) / deleted first
          "jobs": [x..],                      jobs the block submits, in order
-         "end": "ok" | "exc" | "kill_in" | "kill_locked" | "kill_moving" | "kill_exit" | "kill_wait",
+         "end": "ok" | "exc" | "kill_in" | "kill_locked" | "kill_moving" | "kill_exit" | "kill_wait" | "fail_wait",
+                                             kill_wait: dies when wait() is called; fail_wait: wait() waits, then raises
+                                             (what it does when a job failed; logged "wait-raise"); kill_exit: dies at the
+                                             k-th removal of __exit__'s rmtree, or, if the rmtree is over with fewer
+                                             removals, after wait() returned (logged "waited" then "kill wait") -
+                                             whichever order __exit__ calls rmtree and wait() in
          "via": "fall" | "return" | "break", ok: how the block is left without exception (default fall)
          "exc": kind,                        exc: what is raised inside the block, a key of EXC (default "error");
                                              the child logs "exc-class error" (an Exception) or "exc-class base"
@@ -91,12 +96,12 @@ def exc_class(e):
     return "error" if isinstance(e, Exception) else "base"
 
 
-def run_block(enter, body, log, tag="", genexit=False):
+def run_block(enter, body, log, tag="", genexit=False, raised=None):
     """`with enter() as xp: body(xp)` where body returns how to leave: ("ok", via) or ("exc", kind); with
     genexit the block is the body of a generator closed while suspended inside the block.
     Logs "<tag>endblock" + "<tag>exited" (left without exception), "<tag>exc-class C" + "<tag>raise" +
     "<tag>exc-out" (left through the exception raised here), "<tag>error ..." (anything else came out)."""
-    raised = []
+    raised = [] if raised is None else raised     # exception objects raised on purpose (by the block, by a hooked wait())
 
     def plain():
         for _ in (0,):
@@ -133,7 +138,7 @@ def run_block(enter, body, log, tag="", genexit=False):
             plain()
             log(f"{tag}exited")
     except BaseException as e:  # noqa
-        if raised and e is raised[0]:
+        if any(e is r for r in raised):
             log(f"{tag}exc-out")
         else:
             log(f"{tag}error {type(e).__name__}: {e}")
@@ -357,17 +362,31 @@ def child_run(ws, table, run, logfd, ctl=None):
         if end == "kill_in":
             log("kill in")
             die()
-        if end in ("kill_exit", "kill_wait"):
-            def dying_wait():
-                log("kill wait")
-                die()
-            xp.wait = dying_wait
+        if end in ("kill_exit", "kill_wait", "fail_wait"):
+            real_wait = xp.wait
+
+            def hooked_wait():
+                if end == "kill_wait":
+                    log("kill wait")
+                    die()
+                real_wait()
+                if end == "fail_wait":
+                    e = Boom("some jobs failed")
+                    raised.append(e)
+                    log("wait-raise")
+                    raise e
+                log("waited")
+                if not os.path.isdir(hooks.bak):      # the rmtree is over and did not reach the k-th removal
+                    log("kill wait")
+                    die()
+            xp.wait = hooked_wait
         hooks.phase = "exit"
         return "ok", run.get("via", "fall")
 
     kind = run.get("exc", "error")
+    raised = []
     try:
-        run_block(enter, body, log, genexit=(end == "exc" and kind == "genexit"))
+        run_block(enter, body, log, genexit=(end == "exc" and kind == "genexit"), raised=raised)
     finally:
         os._exit(0)
 
